@@ -75,10 +75,12 @@ def diag_value(terms, bits):
 
 
 def gen_case(rng):
-    n = rng.randint(1, 5)
+    wide = rng.random() < 0.08  # registers beyond 32 / 63 / 64 qubits (the JSSP Hamiltonians have 100 and more): fixed-width integer arithmetic would show
+    n = rng.choice([33, 40, 63, 64, 65, 66, 70, 100]) if wide else rng.randint(1, 5)
     shots = rng.choice([1, 2, 3, 7, 10, 64, 100, 1000, 1024, 10**6])
     k = rng.randint(1, min(2**n, shots, 8))
-    states = rng.sample(range(2**n), k)
+    states = rng.sample(range(2**n), k) if not wide else list({rng.getrandbits(n) for _ in range(k)})
+    k = len(states)
     # random partition of shots into k positive counts
     if k == 1:
         counts = [shots]
@@ -88,7 +90,7 @@ def gen_case(rng):
     nterms = rng.randint(1, 4)
     terms = []
     for _ in range(nterms):
-        zs = frozenset(q for q in range(n) if rng.random() < 0.5)
+        zs = frozenset(q for q in range(n) if rng.random() < 0.5) if not wide else frozenset(rng.sample(range(n), rng.randint(1, 4)) + [n - 1 - rng.randrange(3)])
         terms.append((zs, F(rng.randint(-16, 16), rng.choice([1, 2, 4, 8]))))
     if rng.random() < 0.15:
         terms = [(frozenset(), F(rng.randint(-3, 3)))]  # constant objective: all ties
@@ -121,7 +123,7 @@ def build(n, shots, states, counts, terms):
         labels.append("".join("Z" if (n - 1 - i) in zs else "I" for i in range(n)))
         coeffs.append(float(c))
     op = SparsePauliOp(labels, coeffs)
-    vals = {format(s, f"0{n}b"): diag_value(terms, format(s, f"0{n}b")) for s in range(2**n)}
+    vals = {format(s, f"0{n}b"): diag_value(terms, format(s, f"0{n}b")) for s in (range(2**n) if n <= 12 else states)}
     be = BitstringEvaluator(n, lambda b: float(vals[b]))
     return qd, op, be, vals
 
